@@ -109,6 +109,12 @@ def adminErrKind : Err → String
   | .unauthorized => "unauthorized"
   | e => errName e
 
+/-- one administrative operation of the model (`.upgrade` / `.migrate`) through `Cgp.Gateway.step` -/
+def adminStep (s : GwS) (st : State) (op : Gateway.Op SigP) : GwS × StepOut :=
+  match Gateway.step H V ⟨st, s.now⟩ op with
+  | (w1, .err e) => ({ s with st := some w1.st }, ⟨"err", adminErrKind e⟩)
+  | (w1, _) => ({ s with st := some w1.st }, ⟨"ok", "ok"⟩)
+
 /-- `upgrade` to the same code and then (only if it succeeded) `migrate`, both with the authorisers `auths`, run through the
     transition system `Cgp.Gateway.step`. The state after the last step taken is kept: a refused step leaves the world as it
     was, so a failed migration after a successful upgrade keeps the window open. -/
@@ -173,6 +179,17 @@ def step (s : GwS) (t : List String) : GwS × StepOut :=
         match parseAddr new, parseAuth auth with
         | some n, some au => finish s (transferOperatorship st (au.toList [st.operator]) n)
         | _, _ => bad s op
+      | "gw.upgrade", [auth] =>
+        -- the two administrative steps on their own: the window between them is observable (a second `migrate` is refused)
+        if auth = "@" then adminStep s st (Gateway.Op.upgrade [st.owner]) else
+        match parseAuth auth with
+        | some au => adminStep s st (Gateway.Op.upgrade (au.toList [st.owner]))
+        | none => bad s op
+      | "gw.migrate", [auth] =>
+        if auth = "@" then adminStep s st (Gateway.Op.migrate [st.owner]) else
+        match parseAuth auth with
+        | some au => adminStep s st (Gateway.Op.migrate (au.toList [st.owner]))
+        | none => bad s op
       | "gw.upgrade_migrate", [auth] =>
         -- upgrade to the same code + migration of the current tree: the model's `.upgrade` then `.migrate`
         if auth = "@" then upgradeMigrate s st [st.owner] else
